@@ -43,7 +43,7 @@ fn main() {
             Property {
                 id: "C28",
                 level: Level::Exploration,
-                quick_runs: 60_000,
+                quick_runs: 200_000,
                 thorough_runs: 1_500_000,
                 quick_wall_s: 60.0,
                 thorough_wall_s: 600.0,
@@ -55,7 +55,7 @@ fn main() {
             Property {
                 id: "C29",
                 level: Level::Exploration,
-                quick_runs: 40_000,
+                quick_runs: 150_000,
                 thorough_runs: 1_000_000,
                 quick_wall_s: 60.0,
                 thorough_wall_s: 600.0,
